@@ -537,6 +537,7 @@ func TestCheck(t *testing.T) {
 						}
 						cs := Case{Sym: sym, Content: text, Canonical: text, Margin: -1}
 						raw, _ := json.Marshal(cs)
+						hx.JournalCase("oned_roundtrip", raw)
 						if err := hx.Safe(func() error { return check(raw) }); err != nil {
 							stop = !c.Enum("ascii_pairs_exhaustive", "oned_roundtrip", cs, nil)
 						}
@@ -711,6 +712,7 @@ func TestCheck(t *testing.T) {
 					cs.Content = canon
 				}
 				raw, _ := json.Marshal(cs)
+				hx.JournalCase("oned_roundtrip", raw)
 				if err := hx.Safe(func() error { return check(raw) }); err != nil {
 					c.Enum(sub, "oned_roundtrip", cs, nil)
 					break
